@@ -331,5 +331,55 @@ func TestVerifC10(t *testing.T) {
 		}
 		emit("store", vsObserve(store, b, set))
 	}
+	// same offset, three lengths, every arrival order (three fragmentations with different limits share an offset):
+	// whatever arrives last, the longest one must be what the store holds afterwards; the rest of the payload
+	// arrives before, between or after
+	nSame := 6
+	if thorough {
+		nSame = 60
+	}
+	perms3 := [][3]int{{0, 1, 2}, {0, 2, 1}, {1, 0, 2}, {1, 2, 0}, {2, 0, 1}, {2, 1, 0}}
+	for t := 0; t < nSame; t++ {
+		p := 8 + r.intn(24)
+		b, err := vsBundle(r, 100000+t, p)
+		if err != nil {
+			continue
+		}
+		o := 0
+		if t%2 == 1 {
+			o = 1 + r.intn(p-4)
+		}
+		ls := map[int]bool{}
+		for len(ls) < 3 {
+			ls[1+r.intn(p-o)] = true
+		}
+		var l []int
+		for x := range ls {
+			l = append(l, x)
+		}
+		sort.Ints(l)
+		var rest []vsFrag
+		if o > 0 {
+			rest = append(rest, vsFrag{vsHand(b, 0, o), "s"})
+		}
+		if o+l[2] < p {
+			rest = append(rest, vsFrag{vsHand(b, o+l[2], p-o-l[2]), "s"})
+		}
+		for pi, pm := range perms3 {
+			var set []vsFrag
+			same := []vsFrag{{vsHand(b, o, l[pm[0]]), "s"}, {vsHand(b, o, l[pm[1]]), "s"}, {vsHand(b, o, l[pm[2]]), "s"}}
+			switch (t + pi) % 3 {
+			case 0:
+				set = append(append(set, rest...), same...)
+			case 1:
+				set = append(append(set, same...), rest...)
+			default:
+				set = append(set, same[0])
+				set = append(set, rest...)
+				set = append(set, same[1], same[2])
+			}
+			emit("store", vsObserve(store, b, set))
+		}
+	}
 	fmt.Fprintf(w, "# C10 store generator: store=%d\n", count["store"])
 }
